@@ -1251,7 +1251,7 @@ impl Time {
         let args: TimeDifference = other.into();
         let span = args.until_with_largest_unit(self)?;
         if args.rounding_may_change_span() {
-            span.round(args.round)
+            span.round(args.round.largest(args.get_largest()))
         } else {
             Ok(span)
         }
@@ -1285,7 +1285,7 @@ impl Time {
         let args: TimeDifference = other.into();
         let span = -args.until_with_largest_unit(self)?;
         if args.rounding_may_change_span() {
-            span.round(args.round)
+            span.round(args.round.largest(args.get_largest()))
         } else {
             Ok(span)
         }
@@ -2564,6 +2564,13 @@ impl TimeDifference {
         TimeDifference { round: self.round.increment(increment), ..self }
     }
 
+    /// Returns the largest unit of the span computed by this configuration:
+    /// either the one set explicitly or the default.
+    #[inline]
+    fn get_largest(&self) -> Unit {
+        self.round.get_largest().unwrap_or(Unit::Hour)
+    }
+
     /// Returns true if and only if this configuration could change the span
     /// via rounding.
     #[inline]
@@ -2580,7 +2587,7 @@ impl TimeDifference {
         if t1 == t2 {
             return Ok(Span::new());
         }
-        let largest = self.round.get_largest().unwrap_or(Unit::Hour);
+        let largest = self.get_largest();
         if largest > Unit::Hour {
             return Err(err!(
                 "rounding the span between two times must use hours \
